@@ -14,11 +14,26 @@ from .eems2 import project_program, digest
 from .syntax import quote
 
 STRS = {"plain": "abc", "spaces": "two words  here", "dquote": 'say "hi"', "squote": "it's", "backslash": "C:\\temp\\new.csv",
-        "nonascii": "caf\u00e9 \u4e2d\u00df \U0001f600 \U0001d6fc", "delims": "a,b=(c)[d]:#e", "empty": "", "numlike": "12", "boollike": "True", "padded": " x ",
+        "nonascii": "caf\u00e9 \"\u4e2d\u00df\" C:\\donn\u00e9es\\\u00e9t\u00e9 \U0001f600 \U0001d6fc", "delims": "a,b=(c)[d]:#e", "empty": "", "numlike": "12", "boollike": "True", "padded": " x ",
         "newline": "two\nlines\tand a tab", "hash": "# not a comment", "trailbs": "ends with \\", "path": "out dir/file.csv", "Float": "Float",
         "key": 'Display: "Name", [x]'}
 NUMS = {"int": 5, "zero": 0, "negint": -7, "bigint": 2 ** 70 + 1, "dec": 2.5, "negdec": -0.25, "smallexp": 1e-05, "bigexp": 1.5e+20, "exp22": 1e22,
         "tenth": 0.1, "whole": 100.0, "tiny": 5e-324}
+
+
+BUILTIN_PROGRAMS = [
+    "A = EEMSRead(InFileName = in.csv, InFieldName = a)\nB = EEMSRead(InFileName = in.csv, InFieldName = b, MissingVal = -9999)\n"
+    "S = Sum(InFieldNames = [A, B])\nM = Mean(InFieldNames = [A, B])\nF = CvtToFuzzy(InFieldName = S, TrueThreshold = 0, FalseThreshold = 10)\n"
+    "P = PrintVars(InFieldNames = [S, M], OutFileName = shown.txt)\nW = EEMSWrite(OutFileName = out.csv, OutFieldNames = [S, M, F])\n",
+    "A = EEMSRead(InFileName = in.csv, InFieldName = a, MissingVal = 0, DataType = Integer)\nMx = Maximum(InFieldNames = [A])\nMn = Minimum(InFieldNames = [A, Mx])\n"
+    "N = NormalizeMeanToMid(InFieldName = Mn, IgnoreZeros = False, NormalValues = [0, 0.25, 0.5, 0.75, 1])\n"
+    "C = NormalizeCat(InFieldName = A, RawValues = [1, 2], NormalValues = [0, 0.0], DefaultNormalValue = 0)\n"
+    "W = EEMSWrite(OutFileName = \"out 2.csv\", OutFieldNames = [N, C], Metadata = [Note: \"\", Zero: 0])\n",
+    "A = EEMSRead(InFileName = in.csv, InFieldName = a)\nFz = CvtToFuzzy(InFieldName = A, TrueThreshold = 3, FalseThreshold = 0.0, Direction = LowToHigh)\n"
+    "Not = FuzzyNot(InFieldName = Fz)\nOr = FuzzyOr(InFieldNames = [Fz, Not])\nAnd = FuzzyAnd(InFieldNames = [Or, Fz])\nXor = FuzzyXOr(InFieldNames = [Fz, Not])\n"
+    "Union = FuzzyUnion(InFieldNames = [Or, And, Xor])\nCopy1 = Copy(InFieldName = Union)\nMult = Multiply(InFieldNames = [A, A])\n"
+    "Div = ADividedByB(A = Mult, B = A)\nDif = AMinusB(A = Div, B = A)\nP = PrintVars(InFieldNames = [Dif, Copy1])\n",
+]
 
 
 def value(v, mode, prog):
@@ -153,6 +168,37 @@ def check_C15(tier):
                 why_run = None
             records.append({"id": rid, "mode": mode, "reparsed": rep, "same": bool(same), "sameresults": bool(sr), "filesame": bool(filesame)})
             info[rid] = (pa, text, why_run if why_run else None if same else "cleaned values differ:\n%s\n%s" % (proj1[-1], proj2[-1]))
+    # programs over the built-in libraries (commands whose names resemble EEMS 2.0 names, output files, falsy parameter values)
+    with open(os.path.join(wd, "in.csv"), "w") as f:
+        f.write("a,b\n1,4\n2,-9999\n3,6\n0,0\n")
+    for bi, src in enumerate(BUILTIN_PROGRAMS):
+        rid = len(records)
+        text = None
+        try:
+            p1 = Program.from_source(src, working_dir=wd)
+            text = p1.to_string()
+            p2 = Program.from_source(text, working_dir=wd)
+            same = json.dumps(project_program(p1), default=str) == json.dumps(project_program(p2), default=str)
+            rep = ["ok", ""]
+        except BaseException as e:
+            records.append({"id": rid, "mode": "builtin", "reparsed": ["err", type(e).__name__], "same": False, "sameresults": False, "filesame": True})
+            info[rid] = (src, text, "%s: %s" % (type(e).__name__, str(e)[:200]))
+            continue
+        why_run = None
+        try:
+            out = io.StringIO()
+            import contextlib
+
+            with contextlib.redirect_stdout(out):
+                p1.run()
+                p2.run()
+            sr = json.dumps([(n, digest(c._result)) for n, c in p1.commands.items()], default=str) == \
+                json.dumps([(n, digest(c._result)) for n, c in p2.commands.items()], default=str)
+        except BaseException as e:
+            sr = False
+            why_run = "run raised %s: %s" % (type(e).__name__, str(e)[:300])
+        records.append({"id": rid, "mode": "builtin", "reparsed": rep, "same": bool(same), "sameresults": bool(sr), "filesame": True})
+        info[rid] = (src, text, why_run if why_run else None if same else "the reloaded program differs")
     for mode, n in sorted(nskip.items()):
         chk.note("shape-drift: %d programs could not be constructed in mode %s and were skipped" % (n, mode))
     if not records:
@@ -181,7 +227,7 @@ def check_C15(tier):
         v = verdicts[rec["id"]]
         pa, text, why = info[rec["id"]]
         if v != "ok":
-            sid = [a[1][1] for a in pa[1][2] if a[0] in ("S", "N")]
+            sid = [a[1][1] for a in pa[1][2] if a[0] in ("S", "N")] if not isinstance(pa, str) else ["built-in libraries", pa]
             chk.finding("C15:to_string:%s:%s" % (v, rec["mode"]), "to_string of a program built from %s does not load back to the same program: %s" % (rec["mode"], v),
                         {"mode": rec["mode"], "string_and_number_ids": sid, "serialised": text, "why": why})
         elif len(chk.cov["samples"]) < 3 and rec["id"] % 101 == 7:
